@@ -58,19 +58,23 @@ class ChainFinder(object):
             bottom_h, top_h = path[0], path[-1]
 
             top_descendents = self.descendents_by_top.setdefault(top_h, set())
-            bottom_descendents = self.descendents_by_top.get(bottom_h)
-            if bottom_descendents:
-                for descendent in bottom_descendents:
-                    prior_path = self.trees_from_bottom[descendent]
-                    prior_path.extend(path[1:])
-                    if path[0] in self.trees_from_bottom:
-                        del self.trees_from_bottom[path[0]]
-                    else:
-                        pass  # TODO: improve this
-                del self.descendents_by_top[bottom_h]
-                top_descendents.update(bottom_descendents)
-            else:
+            # trees may be waiting on any node of the path, not just its bottom:
+            # a node whose parent arrived in this batch is walked through, never popped
+            bottom_is_leaf = True
+            for i, node in enumerate(path[:-1]):
+                waiting = self.descendents_by_top.get(node)
+                if not waiting:
+                    continue
+                for descendent in waiting:
+                    self.trees_from_bottom[descendent].extend(path[i + 1 :])
+                del self.descendents_by_top[node]
+                top_descendents.update(waiting)
+                if i == 0:
+                    bottom_is_leaf = False
+            if bottom_is_leaf:
                 top_descendents.add(bottom_h)
+            else:
+                del self.trees_from_bottom[bottom_h]
 
     def all_chains_ending_at(self, h: Any) -> Generator[list[Any], None, None]:
         for bottom_h in self.descendents_by_top.get(h, []):
